@@ -219,6 +219,13 @@ def _(ns, ms, cplx=False, nproc=1):
     return pylops.Block(ops, nproc=nproc)
 
 
+@fam("RegStack")
+def _(n, kind="V"):
+    """The classic [I; D] regularisation stacks: first block returns views of its input."""
+    I, D = pylops.Identity(n), pylops.FirstDerivative(n, kind="forward")
+    return {"V": pylops.VStack, "H": pylops.HStack, "B": pylops.BlockDiag}[kind]([I, D])
+
+
 @fam("Kronecker")
 def _(s1, s2, cplx=False):
     A = _leaf(("k1",) + tuple(s1), s1[0], s1[1], cplx)
@@ -409,9 +416,9 @@ def _(nt, nh, pmax=0.3):
 
 
 @fam("Sliding1D")
-def _(nwin, nover, nwins, nop, tapertype="hanning", savetaper=True):
+def _(nwin, nover, nwins, nop, tapertype="hanning", savetaper=True, inner="matrix"):
     dimd = nwin + (nwins - 1) * (nwin - nover)
-    Op = _leaf(("sl1", nwin, nop), nwin, nop)
+    Op = pylops.Identity(nwin) if inner == "identity" else _leaf(("sl1", nwin, nop), nwin, nop)
     return sp.Sliding1D(Op, nwins * nop, dimd, nwin, nover, tapertype=tapertype, savetaper=savetaper)
 
 
@@ -498,6 +505,8 @@ COMPOUNDS = {
     "A.H": lambda A, B: A.H, "A.T": lambda A, B: A.T, "A.conj()": lambda A, B: A.conj(), "(A*B).H": lambda A, B: (A * B).H,
     "A.T.H": lambda A, B: A.T.H, "(A.T*B).H": lambda A, B: (A.T * B).H, "(A**2).H": lambda A, B: (A ** 2).H,
     "(1-2j)*A": lambda A, B: (1 - 2j) * A, "A.H+B.T": lambda A, B: A.H + B.T,
+    "A.apply_columns": lambda A, B: A.apply_columns([2, 0]), "(A*B).apply_columns": lambda A, B: (A * B).apply_columns([1, 2]),
+    "A.apply_columns.H": lambda A, B: A.apply_columns([0, 1]).H,
 }
 
 
@@ -647,6 +656,12 @@ def grid(tier):
     add("Identity", N=3, M=5)
     add("Identity", N=4, inplace=False)
     add("Identity", N=[2, 3])
+    add("Identity", N=5, M=3, inplace=False)
+    add("Identity", N=3, M=5, inplace=False)
+    add("Identity", N=[4, 3], M=[2, 3], inplace=False)
+    add("RegStack", n=4, kind="V")
+    add("RegStack", n=4, kind="H")
+    add("RegStack", n=4, kind="B")
     add("Zero", N=4)
     add("Zero", N=3, M=5)
     add("Zero", N=5, M=2)
@@ -737,6 +752,10 @@ def grid(tier):
         add("DWT", dims=[16], wavelet=wv, level=2)
         add("DWT", dims=[8, 3], axis=0, wavelet=wv, level=1)
         add("DWT2D", dims=[4, 8], wavelet=wv, level=1)
+    for wv in ("bior2.2", "rbio2.2", "rbio1.3"):
+        add("DWT", dims=[8], wavelet=wv, level=1)
+        add("DWT2D", dims=[4, 8], wavelet=wv, level=1)
+    add("DWTND", dims=[4, 2, 4], wavelet="db2", level=1)
     add("DWT", dims=[7], wavelet="haar", level=2)
     add("DWTND", dims=[4, 2, 4], wavelet="haar", level=1)
     for engine in ("numpy", "numba"):
@@ -758,6 +777,10 @@ def grid(tier):
             add("Sliding1D", nwin=4, nover=2, nwins=3, nop=2, tapertype=tp, savetaper=st)
         add("Sliding2D", nwin=4, nover=2, nwins=2, nop=2, nt=2, savetaper=st)
         add("Patch2D", nwin=[4, 4], nover=[2, 2], nwins=[2, 2], nop=[2, 2], savetaper=st)
+    for st in (True, False):
+        add("Patch2D", nwin=[4, 4], nover=[2, 2], nwins=[2, 3], nop=[2, 2], tapertype="cosine", savetaper=st)
+        add("Patch2D", nwin=[4, 4], nover=[2, 2], nwins=[3, 2], nop=[2, 2], tapertype="cosine", savetaper=st)
+        add("Sliding1D", nwin=4, nover=2, nwins=3, nop=4, tapertype="hanning", savetaper=st, inner="identity")
     add("Seislet", nx=4, nt=4)
     add("Seislet", nx=8, nt=3, kind="linear")
     for ts in (True, False):
